@@ -20,6 +20,8 @@
 (*   section 7  the writer state machine: every presentation of a value,   *)
 (*              and Corrupt actions that make the text invalid             *)
 (*   section 8  concrete syntax (bytes), used by trace validation          *)
+(*   section 8b the order of object keys: code points = UTF-8 bytes, and   *)
+(*              where UTF-16 code units order differently                  *)
 (*   section 9  properties                                                 *)
 (*                                                                         *)
 (* Interpretation (DESIGN.md, C01): number literals are literals modulo    *)
@@ -74,10 +76,10 @@ SpellingOK(cp, sp) ==
       [] OTHER -> FALSE
 
 \* the grammatical spellings with pairwise different renderings
-Spellings(cp) ==
-    {sp \in 0..6 : /\ SpellingOK(cp, sp)
-                   /\ (sp = SpUUpper => HexLetter(cp))
-                   /\ (sp = SpMixed /\ cp <= 65535 => OddHexLetter(cp) /\ EvenHexLetter(cp))}
+IsSpelling(cp, sp) == /\ SpellingOK(cp, sp)
+                      /\ (sp = SpUUpper => HexLetter(cp))
+                      /\ (sp = SpMixed /\ cp <= 65535 => OddHexLetter(cp) /\ EvenHexLetter(cp))
+Spellings(cp) == {sp \in 0..6 : IsSpelling(cp, sp)}
 
 \* length in bytes of a spelling
 SpLen(cp, sp) ==
@@ -388,7 +390,7 @@ Status(T) == StatusOf(Parse(T))
 \* ------------------------------------------------------------------------
 \* 6. The canonical form as a predicate on texts (independent of Canon)
 \* ------------------------------------------------------------------------
-ShortestSp(cp, sp) == /\ sp \in Spellings(cp)
+ShortestSp(cp, sp) == /\ IsSpelling(cp, sp)
                       /\ \A o \in Spellings(cp) : SpLen(cp, sp) <= SpLen(cp, o)
                       /\ sp \notin {SpUUpper, SpMixed}    \* the Matrix grammar spells \u00xx in lower case
 RECURSIVE KeysAscending(_)
@@ -527,7 +529,9 @@ BeginString == /\ Writing /\ todo # <<>> /\ (Top.k = "key" \/ (Top.k = "val" /\ 
 EmitChar(sp) == /\ Writing /\ todo # <<>> /\ Top.k = "chr"
                 /\ LET cp == Top.s[1] IN
                    /\ \/ sp = CanonSp(cp) /\ UNCHANGED bud
-                      \/ sp # CanonSp(cp) /\ sp \in Spellings(cp) /\ bud.sp > 0 /\ bud' = [bud EXCEPT !.sp = @ - 1]
+                      \* (= TRUE: evaluated as a value; as a conjunct of the action TLC would branch on the \E / \/ inside it
+                      \*  and produce the same successor several times)
+                      \/ sp # CanonSp(cp) /\ bud.sp > 0 /\ IsSpelling(cp, sp) = TRUE /\ bud' = [bud EXCEPT !.sp = @ - 1]
                    /\ Write(<<ChTok(cp, sp)>>, Tail(todo))
 
 CloseString == /\ Writing /\ todo # <<>> /\ Top.k = "cq"
@@ -570,24 +574,26 @@ BadPairs == { <<56832, 55357>>, <<55357, 55808>>, <<55357, 512>>, <<56832, 56832
 CorBadPair(p, sp) == InString /\ Spoil("bad_pair", "illformed", <<ChTok(p[1], sp), ChTok(p[2], sp)>>, todo)
 CorTrailingGarbage(t) == todo = <<>> /\ Spoil("trailing_garbage", "invalid", <<t>>, todo)
 
-Corrupt == \/ CorTruncate \/ CorTrailingComma \/ CorDoubleComma \/ CorDropColon
-           \/ \E t \in {BadEsc, BadHex} : CorBadEscape(t)
-           \/ \E c \in {0, 10, 31} : CorRawControl(c)
-           \/ \E l \in BadNums : CorBadNumber(l)
-           \/ CorUnquotedKey \/ CorBareValue
-           \/ \E c \in LoneSurrogates, sp \in {SpULower, SpUUpper} : CorLoneSurrogate(c, sp)
-           \/ \E p \in BadPairs, sp \in {SpULower, SpUUpper} : CorBadPair(p, sp)
-           \/ \E t \in Garbage : CorTrailingGarbage(t)
+\* (the guard of Spoil, once for all the disjuncts: most scenarios have no Corrupt budget)
+Corrupt == /\ Writing /\ bud.cor /\ cor = "none"
+           /\ \/ CorTruncate \/ CorTrailingComma \/ CorDoubleComma \/ CorDropColon
+              \/ \E t \in {BadEsc, BadHex} : CorBadEscape(t)
+              \/ \E c \in {0, 10, 31} : CorRawControl(c)
+              \/ \E l \in BadNums : CorBadNumber(l)
+              \/ CorUnquotedKey \/ CorBareValue
+              \/ \E c \in LoneSurrogates, sp \in {SpULower, SpUUpper} : CorLoneSurrogate(c, sp)
+              \/ \E p \in BadPairs, sp \in {SpULower, SpUUpper} : CorBadPair(p, sp)
+              \/ \E t \in Garbage : CorTrailingGarbage(t)
 
 TopIs(k) == todo # <<>> /\ Top.k = "val" /\ Top.v.k = k
 Next == \/ Start
-        \/ \E w \in WsToks : EmitWs(w)
+        \/ \E w \in (IF bud.ws > 0 THEN WsToks ELSE {}) : EmitWs(w)
         \/ EmitFixed \/ EmitScalar
         \/ \E l \in (IF TopIs("num") THEN {Top.v.s, NegZeroLit} ELSE {}) : EmitNumber(l)
         \/ BeginArray
         \/ \E p \in (IF TopIs("obj") THEN Orders(Len(Top.v.c)) ELSE {}) : ChooseKeyOrder(p)
         \/ BeginString
-        \/ \E sp \in 0..6 : EmitChar(sp)
+        \/ \E sp \in (IF todo # <<>> /\ Top.k = "chr" THEN 0..6 ELSE {}) : EmitChar(sp)
         \/ CloseString
         \/ Corrupt
         \/ Finish
@@ -639,6 +645,49 @@ BytesFrom(T, i, acc) == IF i > Len(T) THEN acc ELSE BytesFrom(T, i + 1, acc \o T
 Bytes(T) == BytesFrom(T, 1, <<>>)
 
 \* ------------------------------------------------------------------------
+\* 8b. The order of object keys.  "Sorted by code point" (Matrix appendix
+\*    "Canonical JSON") is the order LexLess of section 2 on the DECODED keys.
+\*    Three orders are in sight of an implementation:
+\*      code points            LexLess            the Matrix order
+\*      bytes of the UTF-8     ByteLess           the same order (KeyOrderIsByteOrder)
+\*      UTF-16 code units      UnitLess           RFC 8785 / ECMAScript: NOT the Matrix order
+\*    The first two agree on every pair of strings; the third differs from them
+\*    exactly where the first differing characters are a supplementary-plane
+\*    character (its leading surrogate is D800..DBFF) and a BMP character above
+\*    the surrogates (E000..FFFF) (UnitOrderDiffersExactly).  CpClass names the
+\*    classes of characters an ordering can tell apart: the UTF-8 length classes,
+\*    the BMP split at the surrogates, and the supplementary planes.
+\* ------------------------------------------------------------------------
+CpClass(cp) == IF cp < 128 THEN "ascii"
+               ELSE IF cp < 2048 THEN "two-byte"
+               ELSE IF cp < 55296 THEN "bmp-below-surrogates"
+               ELSE IF cp < 65536 THEN "bmp-above-surrogates"
+               ELSE "astral"
+CpClasses == <<"ascii", "two-byte", "bmp-below-surrogates", "bmp-above-surrogates", "astral">>
+
+RECURSIVE UTF8Str(_)
+UTF8Str(s) == IF s = <<>> THEN <<>> ELSE UTF8(Head(s)) \o UTF8Str(Tail(s))
+RECURSIVE UTF16Str(_)
+UTF16Str(s) == IF s = <<>> THEN <<>>
+               ELSE (IF Head(s) >= 65536 THEN <<HighSurr(Head(s)), LowSurr(Head(s))>> ELSE <<Head(s)>>) \o UTF16Str(Tail(s))
+ByteLess(a, b) == LexLess(UTF8Str(a), UTF8Str(b))
+UnitLess(a, b) == LexLess(UTF16Str(a), UTF16Str(b))
+
+\* the classes of the two characters at the first position where two strings differ ("end": the string ends there)
+RECURSIVE DiffClasses(_, _)
+DiffClasses(a, b) ==
+    IF a = <<>> \/ b = <<>>
+    THEN <<IF a = <<>> THEN "end" ELSE CpClass(Head(a)), IF b = <<>> THEN "end" ELSE CpClass(Head(b))>>
+    ELSE IF Head(a) # Head(b) THEN <<CpClass(Head(a)), CpClass(Head(b))>>
+    ELSE DiffClasses(Tail(a), Tail(b))
+AcrossSurrogateGap(a, b) == DiffClasses(a, b) \in {<<"astral", "bmp-above-surrogates">>, <<"bmp-above-surrogates", "astral">>}
+
+\* every object of a value (at any depth), and the ordered pairs of keys that are members of one object
+RECURSIVE ObjsOf(_)
+ObjsOf(v) == (IF v.k = "obj" THEN {v} ELSE {}) \cup UNION {ObjsOf(v.c[i].val) : i \in DOMAIN v.c}
+SiblingKeys(v) == UNION {{<<o.c[i].key, o.c[j].key>> : i, j \in DOMAIN o.c} : o \in ObjsOf(v)}
+
+\* ------------------------------------------------------------------------
 \* 9. Properties.  The library is not part of this module: these state what
 \*    the oracle must satisfy (so that a mistake in Canon / Parse / the writer
 \*    is found by TLC and not blamed on the code), over the history variables
@@ -660,6 +709,17 @@ CanonFixedPoint   == AtStart => Canon(Parse(Canon(scen.v)).v) = Canon(scen.v)
 CanonIsCanonical  == AtStart => IsCanonicalText(Canon(scen.v))
 AltIsCanonical    == AtStart => /\ IsCanonicalText(CanonAlt(scen.v))
                                 /\ (Canon(scen.v) # CanonAlt(scen.v) => \E i \in DOMAIN LitsOf(scen.v) : NegZeroLoose(LitsOf(scen.v)[i]))
+
+\* Key order (section 8b), for the keys that meet in one object of the scenario's value.
+\* (1) the Matrix order of keys - by code point - is the order of the bytes of their UTF-8
+KeyOrderIsByteOrder == AtStart => \A p \in SiblingKeys(scen.v) : LexLess(p[1], p[2]) <=> ByteLess(p[1], p[2])
+\* (2) it is not the order of UTF-16 code units, and the two differ exactly across the surrogate gap
+UnitOrderDiffersExactly == AtStart => \A p \in SiblingKeys(scen.v) :
+                               p[1] # p[2] => ((LexLess(p[1], p[2]) # UnitLess(p[1], p[2])) <=> AcrossSurrogateGap(p[1], p[2]))
+\* (3) the members of every object of the canonical text, as its reader finds them, ascend in byte order
+\*     (stated on UTF-8 bytes: independent of the comparison CanonV sorts with)
+CanonKeysInByteOrder == AtStart => \A o \in ObjsOf(Parse(Canon(scen.v)).v) :
+                            \A i \in 1..(Len(o.c) - 1) : ByteLess(o.c[i].key, o.c[i + 1].key)
 
 \* facts about finished texts
 Done == phase = "done"
